@@ -590,6 +590,11 @@ func (l *Loop) NumVertices() int {
 func (l *Loop) bruteForceContainsPoint(p Point) bool {
 	origin := OriginPoint()
 	inside := l.originInside
+	// Don't crash on a loop without vertices (e.g. a decoded empty Loop value):
+	// it has no edges to cross.
+	if len(l.vertices) == 0 {
+		return inside
+	}
 	crosser := NewChainEdgeCrosser(origin, p, l.Vertex(0))
 	for i := 1; i <= len(l.vertices); i++ { // add vertex 0 twice
 		inside = inside != crosser.EdgeOrVertexChainCrossing(l.Vertex(i))
